@@ -12,7 +12,7 @@
 (***************************************************************************)
 EXTENDS Integers, Sequences, FiniteSets, TLC, Json
 
-E == INSTANCE Enum WITH MembersFile <- "", ExhaustiveFams <- {}, RangeLimited <- FALSE,
+E == INSTANCE Enum WITH MembersFile <- "", ExhaustiveFams <- {}, Arity <- 2, RangeLimited <- FALSE,
        fam <- "", val <- {}, stage <- 0
 
 Table == ndJsonDeserialize("enum_table.ndjson")
